@@ -40,11 +40,16 @@ def r6_unknown_size_read(ck, cx):
                     changed = True
     tests = {x.id for x in ast.walk(loop.test) if isinstance(x, ast.Name)}
     n = 0
-    for p in cx.enum_region(f, c, stmts=loop.body, max_depth=0, consts={size: None}):
+    for p in cx.enum(f, c, max_depth=0, consts={size: None}):
         annotate(p, heap=False)
         n += 1
-        left = p.exit == 'break' or any(e.kind == 'loop' and e.a == 'break' for e in p.ev) or (p.exit is not None and p.exit[0] in ('return',))
-        conds = [(U(e.node), e.a) for e in p.ev if e.kind == 'cond']
+        if not any(e.kind == 'loop' and e.a == 'enter' for e in p.ev) or (p.exit and p.exit[0] == 'exc'):
+            continue
+        i0 = [i for i, e in enumerate(p.ev) if e.kind == 'loop' and e.a == 'enter'][0]
+        # one iteration is enumerated: the loop is left early on this path iff it ends with a break (or returns from inside the loop)
+        left = any(e.kind == 'loop' and e.a == 'break' for e in p.ev[i0:]) or \
+            not any(e.kind == 'loop' and e.a in ('backedge', 'break') for e in p.ev[i0:])
+        conds = [(U(e.node), e.a) for e in p.ev[i0:] if e.kind == 'cond']
         data_conds = [cd for cd in conds if any(isinstance(x, ast.Name) and x.id in tainted for x in ast.walk(ast.parse(cd[0], mode='eval')))]
         # `if ready[0]:` decides whether to read at all, it is not an exit condition
         timed = {x.id for nd in ast.walk(f.node) if isinstance(nd, ast.Assign) and any(isinstance(c2, ast.Call) and U(c2.func) in ('time.time', 'time.monotonic')
